@@ -4,7 +4,8 @@ nothing."""
 import ast
 
 from ..engine import rule
-from ..flow import PRUNE, Flags, Soft, Violation, explore, implied_atoms, \
+from ..flow import PRUNE, Flags, Soft, Violation, explore, if_branches, \
+    implied_atoms, \
     path_ends, path_is, prov_has, provenance, raising_node, store_value, \
     truth_test
 from ..model import dotted, walk_local
@@ -434,3 +435,121 @@ def r5(R):
         R.violation((f.module.relpath, f.qualname, 'save then rename'),
                     'the file that is renamed into place is not the one the '
                     'index was just written to')
+
+
+# ------------------------------------------------------------------ C09.R7
+@rule('C09.R7', 'a saved index is tied to the data file it was saved for by '
+      'more than file positions (positions coincide again after a pack and '
+      'regrowth)', min_instances=1)
+def r7(R):
+    """What the open reads from the index file, and what the sanity check
+    compares with the data file.  Today: the keys 'index' and 'pos', and the
+    record positions of the last transaction -- nothing that identifies the
+    CONTENT of the data file (such as the id of the transaction the index
+    was saved after).  Reported as F30."""
+    cls = R.prog.cls(FS)
+    f = R.method(cls, '_restore_index')
+    keys = set()
+    for c in walk_local(f.node):
+        if isinstance(c, ast.Call) and isinstance(c.func, ast.Attribute) and \
+                c.func.attr == 'get' and c.args and isinstance(
+                    c.args[0], ast.Constant) and isinstance(
+                        c.args[0].value, str):
+            keys.add(c.args[0].value)
+        if isinstance(c, ast.Subscript) and isinstance(
+                c.slice, ast.Constant) and isinstance(c.slice.value, str) \
+                and isinstance(c.ctx, ast.Load):
+            keys.add(c.slice.value)
+    R.instance('FileStorage._restore_index', keys_read=sorted(keys))
+    R.require({'index', 'pos'} <= keys,
+              '_restore_index no longer reads index and pos: %s' % keys)
+    cs = R.method(cls, '_check_sanity')
+    # a comparison of transaction ids in the sanity check would do as well
+    tid_cmp = any(
+        isinstance(c, ast.Compare) and any(
+            isinstance(x, ast.Attribute) and x.attr == 'tid'
+            for x in ast.walk(c)) and any(
+                isinstance(x, ast.Name) and x.id in cs.params
+                for x in ast.walk(c))
+        for c in walk_local(cs.node))
+    if keys <= {'index', 'pos'} and not tid_cmp:
+        R.violation(
+            (f.module.relpath, f.qualname, 'keys read from the index file'),
+            'the saved index is accepted when the saved position is a '
+            'transaction boundary and the records of the LAST transaction '
+            'sit where the index says; nothing identifies the content of '
+            'the data file.  An index saved before a pack (a kept copy) is '
+            'accepted once the file has grown back to the saved position '
+            'with a last transaction of the same shape: every other '
+            'position in it is wrong, objects fail to load or load as '
+            'other objects', key='saved index identified by positions only')
+
+
+# ------------------------------------------------------------------ C09.R8
+@rule('C09.R8', 'the running index and the open-time scan index the same '
+      'transactions: the scan skips transactions with status "u", so finish '
+      'does not index a transaction it wrote with that status',
+      props=['C17'], min_instances=2)
+def r8(R):
+    """Sibling agreement (F31) between read_index and _finish_finish."""
+    ri = R.prog.func('ZODB.FileStorage.FileStorage.read_index')
+    skips = set()
+    for x in walk_local(ri.node):
+        if isinstance(x, ast.If):
+            for atoms, block in if_branches(x):
+                for e, t in atoms:
+                    if isinstance(e, ast.Compare) and len(e.ops) == 1 and \
+                            isinstance(e.ops[0], (ast.Eq, ast.NotEq)) and \
+                            isinstance(e.ops[0], ast.Eq) == t and \
+                            isinstance(e.comparators[0], ast.Constant) and \
+                            isinstance(e.left, ast.Name) and any(
+                                isinstance(y, ast.Continue) for b_ in block
+                                for y in ast.walk(b_)):
+                        skips.add(e.comparators[0].value)
+    skips = {s.decode() if isinstance(s, bytes) else s for s in skips
+             if isinstance(s, (str, bytes))}
+    R.instance('read_index skips status', statuses=sorted(skips))
+    if 'u' not in skips:
+        R.observe('read_index no longer skips undone transactions; nothing '
+                  'to agree on')
+        return
+    cls = R.prog.cls(FS)
+    f = R.method(cls, '_finish_finish')
+    g, b, F = R.cfg(f, cls, max_depth=0)
+    R.instance('FileStorage._finish_finish index update')
+    seen = [0]
+
+    def edge(node, st, lab, tgt):
+        if node.kind == 'test' and lab in ('T', 'F'):
+            for e, truth in implied_atoms(node.ast, lab):
+                if isinstance(e, ast.Compare) and len(e.ops) == 1 and \
+                        isinstance(e.ops[0], (ast.Eq, ast.NotEq)) and \
+                        isinstance(e.comparators[0], ast.Constant) and \
+                        e.comparators[0].value in ('u', b'u'):
+                    pv = provenance(e.left, node.frame, F)
+                    if ('path', ('self', '_tstatus')) in pv:
+                        is_u = isinstance(e.ops[0], ast.Eq) == truth
+                        return 'undone' if is_u else 'not-undone'
+        return st
+
+    def at(node, st):
+        for op in F.ops(node):
+            if op.kind == 'call' and path_is(
+                    op.path, ('self', '_index', 'update')):
+                seen[0] += 1
+                if st != 'not-undone':
+                    return Violation(
+                        'finish enters the records of the transaction into '
+                        'the running index without having excluded status '
+                        '"u" (an undone transaction of an old source, '
+                        'restored with its status): the open-time scan skips '
+                        'such transactions, so the running storage and the '
+                        'index saved at close show objects that a full scan '
+                        'of the same file does not')
+        return st
+
+    vs, stats = explore(g, 'unknown', at=at, edge=edge)
+    R.count(stats)
+    R.require(seen[0] or vs, '_finish_finish no longer updates the index')
+    for v in vs:
+        R.violation(v.node, v.message, g, v.path)
